@@ -108,6 +108,12 @@ func runC05CLI(cs C05Case, x *kit.Ctx) {
 	x.Transition(2)
 	var wantRoots [][]byte
 	var stored []refcar.Block
+	// altStored: other section lists the statement equally allows (chosen by the output's payload)
+	var altStored [][]refcar.Block
+	// rootsFromInput (filter without --append): every root of the output must be a root of the
+	// input; WHICH of them the CLI keeps is its own semantics, not the statement's
+	var rootsFromInput [][]byte
+	anyOrder := false // get-dag: the traversal order is the CLI's own semantics
 	fromOutput := false
 	switch cl.Cmd {
 	case "create":
@@ -162,13 +168,17 @@ func runC05CLI(cs C05Case, x *kit.Ctx) {
 		if inverse {
 			args = append(args, "--inverse")
 		}
+		// the CLI chooses the de-duplication key of its output store (multihash today; the filter
+		// itself selects by whole CID): both are modelled, the output decides
 		m := &model.Map{}
+		mw := &model.Map{Cfg: model.Cfg{Whole: true}}
 		var preRoots [][]byte
 		if cl.Append != "" {
 			pre, pr, pb := c05PreFile(cl.Append)
 			os.WriteFile(filepath.Join(work, "out.car"), pre, 0o644)
 			preRoots = pr
 			m.Stored = append(m.Stored, pb...)
+			mw.Stored = append(mw.Stored, pb...)
 			args = append(args, "--append")
 		}
 		args = append(args, "in.car", "out.car")
@@ -179,13 +189,16 @@ func runC05CLI(cs C05Case, x *kit.Ctx) {
 		for _, b := range blks {
 			if selected[string(b.Raw)] != inverse {
 				m.Put(b)
+				mw.Put(b)
 			}
 		}
 		stored = m.RefBlocks()
+		altStored = append(altStored, mw.RefBlocks())
 		wantRoots = [][]byte{}
 		if cl.Append != "" {
 			wantRoots = preRoots
 		} else {
+			rootsFromInput = rootRaws
 			for _, rt := range rootRaws {
 				if selected[string(rt)] != inverse {
 					wantRoots = append(wantRoots, rt)
@@ -219,6 +232,7 @@ func runC05CLI(cs C05Case, x *kit.Ctx) {
 			return
 		}
 		wantRoots = [][]byte{start[cl.Start]}
+		anyOrder = true
 		for _, c := range reach[cl.Start] {
 			for _, bl := range b.blocks {
 				if bytes.Equal(bl.Cid, c) {
@@ -249,6 +263,29 @@ func runC05CLI(cs C05Case, x *kit.Ctx) {
 		wantRoots = fl.Payload.Header.Roots
 		stored = c19Blocks(fl)
 	}
+	if !fromOutput {
+		// beyond the statement (recorded, never a violation): which legal variant the CLI chose
+		if fl, err := refcar.DecodeFile(out, false); err == nil && (fl.Version == 1) == cl.V1 {
+			got := c19Blocks(fl)
+			if rootsFromInput != nil && !sameRoots(fl.Payload.Header.Roots, wantRoots) && !fl.Payload.Header.RootsNil && subsetOfRoots(fl.Payload.Header.Roots, rootsFromInput) {
+				x.Outcome("beyond-statement:cli-filter-roots")
+				wantRoots = fl.Payload.Header.Roots
+			}
+			if sameBlocks(got, stored, true) != "" {
+				for _, alt := range altStored {
+					if sameBlocks(got, alt, true) == "" {
+						x.Outcome("beyond-statement:cli-dedup-key")
+						stored = alt
+						break
+					}
+				}
+			}
+			if anyOrder && sameBlocks(got, stored, true) != "" && permutationOf(got, stored) {
+				x.Outcome("beyond-statement:cli-traversal-order")
+				stored = got
+			}
+		}
+	}
 	checkFinalized(x, out, wantRoots, false, stored, drv.Opts{}, cl.V1, tag)
 	if !x.Failed() {
 		checkAccepted(x, out, wantRoots, stored, false, tag)
@@ -258,6 +295,40 @@ func runC05CLI(cs C05Case, x *kit.Ctx) {
 	if len(stored) >= 2 {
 		x.Nontrivial(fmt.Sprintf("cli|%v|%v|%+v", cs.Roots, cs.Seq, *cl))
 	}
+}
+
+// subsetOfRoots: every root of got occurs in from, at most as often as there.
+func subsetOfRoots(got, from [][]byte) bool {
+	left := map[string]int{}
+	for _, r := range from {
+		left[string(r)]++
+	}
+	for _, r := range got {
+		if left[string(r)] == 0 {
+			return false
+		}
+		left[string(r)]--
+	}
+	return true
+}
+
+// permutationOf: a and b hold the same blocks (CID and data) as multisets.
+func permutationOf(a, b []refcar.Block) bool {
+	if len(a) != len(b) {
+		return false
+	}
+	left := map[string]int{}
+	for _, bl := range b {
+		left[string(bl.Cid)+"\x00"+string(bl.Data)]++
+	}
+	for _, bl := range a {
+		k := string(bl.Cid) + "\x00" + string(bl.Data)
+		if left[k] == 0 {
+			return false
+		}
+		left[k]--
+	}
+	return true
 }
 
 func genC05CLI(tier string, emit func(any)) {
